@@ -197,6 +197,10 @@ func (d *intDecoder) DecodeStream(s *Stream, depth int64, p unsafe.Pointer) erro
 	if bytes == nil {
 		return nil
 	}
+	if s.numberGoesOn() {
+		// 1.5, 1e2: a number, but not an integer
+		return d.typeError(bytes, s.totalOffset())
+	}
 	i64, err := d.parseInt(bytes)
 	if err != nil {
 		return d.typeError(bytes, s.totalOffset())
